@@ -47,6 +47,7 @@ type c04Call struct {
 	Err     string `json:"err,omitempty"`
 	Failed  bool   `json:"failed"`
 	Need    string `json:"need"` // ok (all required replies delivered) | lost (a required reply missing) | none (no request seen)
+	NReq    int    `json:"required_requests"`
 }
 
 type c04Res struct {
@@ -327,7 +328,7 @@ func c04Run(cs c04Case, checkGoroutines bool) (res c04Res) {
 	nScenario := len(res.Calls)
 
 	// ---- end the stream now if the scenario was shorter than the cut offset ----
-	if cs.Fault != "none" && !hung {
+	if cs.Fault != "none" && cs.Fault != "selftest-leak" && !hung {
 		if cs.Fault == "failinput" {
 			peer.FailInput(errC04Injected) // no further write can succeed
 		} else {
@@ -364,6 +365,15 @@ func c04Run(cs c04Case, checkGoroutines bool) (res c04Res) {
 		return
 	}
 	// ---- Wait, Close, goroutines ----
+	if cs.Fault == "selftest-leak" {
+		// harness self-test: neither end is closed, so the package's receiver goroutine must be reported
+		time.Sleep(20 * time.Millisecond)
+		if started, _ := cliWaitQuiet(100 * time.Millisecond); len(started) > 0 {
+			fail("goroutine-leak/"+cliShortFn(started[0].PkgFrame()), "self-test", cliDescribe(started))
+		}
+		res.ExitNow = true
+		return
+	}
 	if cs.Fault == "none" {
 		peer.CutOutput() // orderly end of a dry run
 		cutDone.Store(true)
@@ -426,11 +436,20 @@ func c04Run(cs c04Case, checkGoroutines bool) (res c04Res) {
 			if rec.call != c.Name || c04Optional(cs.Op, rec.typ, rec.off) {
 				continue
 			}
+			c.NReq++
 			if !rec.delivered {
 				need = "lost"
-				break
+			} else if need == "none" {
+				need = "ok"
 			}
-			need = "ok"
+		}
+		if need == "ok" && dry != nil {
+			// requests that never reached the server (their write failed) are replies not received, too
+			for j := range dry.Calls {
+				if dry.Calls[j].Name == c.Name && c.NReq < dry.Calls[j].NReq {
+					need = "lost"
+				}
+			}
 		}
 		c.Need = need
 		if cs.Fault == "none" {
@@ -553,7 +572,7 @@ func checkC04(c *lib.Ctx) {
 						}
 					}
 				}
-				for k := 0; k < 6; k++ {
+				for k := 0; k < 10; k++ {
 					offs[c.Rand.Intn(total+1)] = true
 				}
 			}
@@ -569,9 +588,9 @@ func checkC04(c *lib.Ctx) {
 				cases = append(cases, c04Case{Op: op.Name, Fault: "failinput", At: k})
 			}
 			// racing registrants
-			perRacer := 1
+			perRacer := 8
 			if thorough {
-				perRacer = 10
+				perRacer = 120
 			}
 			for racers := 1; racers <= 8; racers++ {
 				for k := 0; k < perRacer; k++ {
@@ -585,6 +604,11 @@ func checkC04(c *lib.Ctx) {
 			}
 		}
 	}
+	selftest := -1
+	if c.Replay == "" {
+		selftest = len(cases)
+		cases = append(cases, c04Case{Op: "Stat", Fault: "selftest-leak"})
+	}
 	raws := make([]json.RawMessage, len(cases))
 	for i, cs := range cases {
 		raws[i], _ = json.Marshal(cs)
@@ -596,6 +620,16 @@ func checkC04(c *lib.Ctx) {
 	}
 	racerOK, racerErr := 0, 0
 	for i, cs := range cases {
+		if i == selftest {
+			var res c04Res
+			json.Unmarshal(results[i], &res)
+			if len(res.Fails) == 1 && strings.HasPrefix(res.Fails[0].Key, "goroutine-leak/") && strings.Contains(res.Fails[0].Key, "recv") {
+				r.Note("self-test passed: a Client left open is reported as %s", res.Fails[0].Key)
+			} else {
+				r.Fail(lib.Failure{Kind: "tie", Key: "selftest/leak-not-detected", What: "the goroutine-table reader does not see the receiver goroutine of a Client that was left open", Actual: res})
+			}
+			continue
+		}
 		r.Case(fmt.Sprintf("%s/%s@%d/r%d/s%d", cs.Op, cs.Fault, cs.At, cs.Racers, cs.Seed), cs.Fault != "none")
 		r.Hist("op/" + cs.Op)
 		r.Hist(fmt.Sprintf("fault/%s/racers=%d", cs.Fault, cs.Racers))
